@@ -331,6 +331,9 @@ def step (ps : PState) (fs : List String) (obs : String) : PState × String × S
       else if log.isEmpty then ps.renewed else ps.renewed.filter (· ≠ (res, r.query))
     ({ ps with cache := cache', now := now, armed := armed', renewed := renewed' }, m, v1)
     | _ => (ps, "bad-op", "bad:bad-op")
+  | ["px", "setpolicy", ig, fo, dflt] =>
+    -- an accepted run-time change of the cache policy: the following exchanges are decided by the new values
+    ({ ps with cfg := { ps.cfg with ignoreCC := ig = "1", forceDefault := fo = "1", defaultMaxAge := int dflt * 1000 } }, "policy-set", "ok")
   | ["px", "abort2", id, _k, _ch] =>
     -- BOTH transfers of the next exchange for this resource fail part-way: the client cannot be given the whole body.
     -- It must be able to tell: a cut connection (`bodyerr=`), or an error status - never a complete-looking short 200.
